@@ -358,7 +358,9 @@ def run_C14(ctx):
     return ctx.finish(rule="one case = one maximal command sequence (all sequences up to the bound; sampled beyond it); the "
                            "expected snapshot after EVERY command is compared, and all snapshots are re-read at the end",
                       assumptions=["the builder's state after an error and clear() with open containers are unspecified",
-                                   "datetime/complex/bytestring/append/extend commands are not in the alphabet yet"])
+                                   "datetime/complex/bytestring/extend commands are not in the alphabet yet",
+                                   "LayoutBuilder: a snapshot taken while a top-level element is half-filled is not judged; commands that do not fit the Form's "
+                                   "grammar are unspecified except a datum of another primitive type where a number is due (must raise)"])
 
 
 RUNNERS["C14"] = run_C14
@@ -889,6 +891,12 @@ RUNNERS["C18"] = run_C18
 
 
 # ------------------------------------------------------------------ C20 (Numba)
+NB_BUILDER_ALPHABET = '''{[c |-> "null"], [c |-> "int", x |-> 1], [c |-> "int", x |-> 2], [c |-> "real", n |-> 5, d |-> 2], [c |-> "bool", x |-> 1],
+ [c |-> "beginlist"], [c |-> "endlist"], [c |-> "beginrecord", name |-> ""], [c |-> "beginrecord", name |-> "P"],
+ [c |-> "field", key |-> "x"], [c |-> "field", key |-> "y"], [c |-> "endrecord"], [c |-> "begintuple", n |-> 2], [c |-> "index", i |-> 0],
+ [c |-> "index", i |-> 1], [c |-> "index", i |-> 2], [c |-> "endtuple"]}'''
+
+
 def run_C20(ctx):
     ctx.build_l2()
     q = ctx.quick()
@@ -907,6 +915,12 @@ def run_C20(ctx):
     ctx.numba_phase("numba-regular-views", "Session", consts, invariants=["Closed"],
                     require_actions=["NumbaOp", "WrapRegular", "WrapListOffset"],
                     max_forms=(24 if q else 400), max_cases_per_form=(300 if q else 3000), timeout=1500)
+    # ArrayBuilder calls inside compiled code: every Builder.tla behaviour over the numeric / list / record / tuple commands, each
+    # command one call of a Numba-compiled interpreter on the same builder (extern "C" awkward_ArrayBuilder_* through the lowering)
+    ctx.l2_phase("numba-arraybuilder", "Builder", dict(Alphabet=NB_BUILDER_ALPHABET, MaxCmds=str(4 if q else 5), MaxOpen="99", WellNestedOnly="FALSE",
+                                                       EmitOn="TRUE", **{"Allowed(h, c)": "TRUE"}),
+                 ("l2numba", "h_builder_numba"), invariants=["SnapshotLength", "UnifyKeepsValues"], properties=["ErrorsLeaveState"],
+                 init="BInit", next_="BNext", view="BView", action_constraints=["BEmit"], sample_cases=(40000 if q else 600000))
     return ctx.finish(rule="case = (layout, access program, run-time indexes); the program is compiled by Numba through /repo's lowering once per "
                            "array form and run on every layout of that form; results boxed back and compared with AkNumba!NbExpect; "
                            "reference counts of the layout before/after 20 calls on every 25th case",
